@@ -9,15 +9,18 @@
 (* trusted-chain changes; deployments and registrations interleaved.  Every outbound     *)
 (* transfer costs gas, so the state space is finite and explored completely.             *)
 EXTENDS ITSMC
-CONSTANT Small
+CONSTANTS Small,
+          CanonName   \* "sac": a Stellar asset contract; "itk": an interchain token built from the repository's source,
+                      \* registered as a canonical token (the only way the token's SOURCE meets the service: the tokens
+                      \* the service deploys itself run the pinned wasm)
 VARIABLE st
 
 MC_Chains == {"ethereum", "avalanche"}
-MC_Accts == {"alice", "bob", "carol", "its", "gs", "app", "trap"}
+MC_Accts == {"alice", "bob", "carol", "its", "gs", "app", "trap", "errapp"}
 MC_Ids == {"iA1", "iB1", "cS", "r9"}
 MC_IdOf == [alice |-> [s1 |-> "iA1"], bob |-> [s1 |-> "iB1"]]
-MC_IdCOf == [sac |-> "cS"]
-MC_Canon == {"sac"}
+MC_IdCOf == [x \in {CanonName} |-> "cS"]
+MC_Canon == {CanonName}
 MC_Metas == [good    |-> [nameLen |-> 10, symLen |-> 4, decimals |-> 7, utf8 |-> TRUE, style |-> "ascii"],
              sacMeta |-> [nameLen |-> 6,  symLen |-> 6, decimals |-> 7, utf8 |-> TRUE, style |-> "sac"]]
 MC_Keys == {"k0"}
@@ -27,8 +30,10 @@ Tx(id, to, amt, data) == [outer |-> "recv", origin |-> "ethereum", inner |-> "tr
                           recipient |-> to, amt |-> amt, data |-> data, mut |-> NoMut]
 RawPayloads ==
     [in_n  |-> Tx("iA1", "bob", 1, "none"), in_c |-> Tx("cS", "bob", 1, "none"), in_c3 |-> Tx("cS", "alice", 3, "none"),
-     in_d  |-> Tx("iA1", "app", 1, "d1"),   in_t |-> Tx("iA1", "trap", 1, "d1"), in_0 |-> Tx("iA1", "bob", 0, "none"),
+     in_d  |-> Tx("iA1", "app", 1, "d1"),   in_t |-> Tx("iA1", "trap", 1, "d1"), in_e |-> Tx("iA1", "errapp", 1, "d1"), in_0 |-> Tx("iA1", "bob", 0, "none"),
      in_u  |-> Tx("r9", "bob", 1, "none"),
+     \* the service itself as recipient: releasing custody to itself must leave custody where it was
+     in_cs |-> Tx("cS", "its", 1, "none"),
      \* announced amounts beyond i128 (2^128 + 1, 2^127): must be refused, never credited in part
      in_big  |-> [Tx("iA1", "bob", 1, "none") EXCEPT !.mut = [kind |-> "setinner", off |-> 128,
                     bytes |-> A!Zeros(15) \o <<1>> \o A!Zeros(15) \o <<1>>]],
@@ -46,7 +51,7 @@ Xfer(c, id, dest, amt, data, gas) ==
 Acts(s) ==
     {[name |-> "DeployInterchainToken", caller |-> "alice", salt |-> "s1", meta |-> "good", supply |-> 2,
       minter |-> "none", auth |-> {"alice"}],
-     [name |-> "RegisterCanonical", tok |-> "sac"]}
+     [name |-> "RegisterCanonical", tok |-> CanonName]}
     \cup (IF Small THEN {} ELSE
           {[name |-> "DeployInterchainToken", caller |-> "bob", salt |-> "s1", meta |-> "good", supply |-> 0,
             minter |-> "carol", auth |-> {"bob"}],
@@ -62,7 +67,7 @@ Acts(s) ==
 
 Within(s) == s.bal["iA1"]["bob"] <= (IF Small THEN 1 ELSE 2) /\ s.bal["iA1"]["app"] <= 1 /\ s.bal["iB1"]["bob"] <= 1
 InitState == [Blank("owner0") EXCEPT !.trusted["ethereum"] = TRUE,
-                 !.bal["sac"]["alice"] = 2, !.bal["sac"]["bob"] = IF Small THEN 0 ELSE 1,
+                 !.bal[CanonName]["alice"] = 2, !.bal[CanonName]["bob"] = IF Small THEN 0 ELSE 1,
                  !.gas["alice"] = IF Small THEN 2 ELSE 3, !.gas["bob"] = IF Small THEN 0 ELSE 1]
 Init == st = InitState
 EnabledActs(s) == {a \in Acts(s) : Within(Apply(s, a).post)}
@@ -71,12 +76,14 @@ Next == \E a \in EnabledActs(st) : st' = Apply(st, a).post
 -----------------------------------------------------------------------------
 Step(P(_, _, _)) == \A a \in EnabledActs(st) : P(st, a, Apply(st, a))
 Custody(s, a, r) ==
-    LET d == r.post.bal["sac"]["its"] - s.bal["sac"]["its"] IN
-    /\ r.post.bal["sac"]["its"] >= 0
+    LET d == r.post.bal[CanonName]["its"] - s.bal[CanonName]["its"] IN
+    /\ r.post.bal[CanonName]["its"] >= 0
     /\ IF a.name = "InterchainTransfer" /\ r.ok /\ a.id = "cS" THEN d = a.amt
-       ELSE IF a.name = "Deliver" /\ r.ok /\ Payloads[a.payload].id = "cS" THEN d = 0 - Payloads[a.payload].amt
+       ELSE IF a.name = "Deliver" /\ r.ok /\ Payloads[a.payload].id = "cS"
+            \* released to the service itself: what leaves custody comes straight back
+            THEN d = IF Payloads[a.payload].recipient = "its" THEN 0 ELSE 0 - Payloads[a.payload].amt
        ELSE d = 0
-    /\ Supply(r.post, "sac") = Supply(s, "sac")
+    /\ Supply(r.post, CanonName) = Supply(s, CanonName)
 NativeSupply(s, a, r) == \A t \in {"iA1", "iB1"} :
     LET d == Supply(r.post, t) - Supply(s, t) IN
     IF a.name = "InterchainTransfer" /\ r.ok /\ a.id = t THEN d = 0 - a.amt
@@ -97,7 +104,7 @@ Out(s, a, r) ==
 In(s, a, r) ==
     (a.name = "Deliver" /\ r.ok) =>
         LET P == Payloads[a.payload]  T == TokenOf(s, P.id) IN
-        r.post.bal[T][P.recipient] = s.bal[T][P.recipient] + P.amt
+        r.post.bal[T][P.recipient] = s.bal[T][P.recipient] + (IF s.reg[P.id] = "lock" /\ P.recipient = "its" THEN 0 ELSE P.amt)
 Frame(s, a, r) == ~r.ok => r.post = s /\ r.ev = <<>>
 C05_Custody == Step(Custody)
 C05_NativeSupply == Step(NativeSupply)
